@@ -4,6 +4,10 @@ from props_common import COMMON_NOTE
 CONF = dict(
     families=[('tx', 220, 4000), ('raw', 220, 4000), ('blk', 120, 2000), ('rawblk', 160, 2500)],
     compare=None,
+    coq_eval=[dict(family='raw', key='reser', imports='Model.Tx', quick=40, thorough=400,
+                   fn='(fun i => match parse_tx i with Some (t, _) => ser_full t | None => nil end)'),
+              dict(family='rawblk', key='reser', imports='Model.Tx Model.Block', quick=20, thorough=200,
+                   fn='(fun i => match parse_block i with Some (b, _) => ser_block b | None => nil end)')],
     trusted=['modelled by hand: transaction/transaction.go serialize/NewTxFromBuffer, internal/bufferutil (varint, slices, vectors, Elements value/asset/nonce readers), block/serialize.go, block/deserialize.go'],
     explanation='theorems: parse(ser t ++ rest) = (norm t, rest) for all wf t; ser(parse bs) ++ rest = bs for all accepted bs with canonical flag; same for headers/blocks. K: model vs implementation on generated transaction/block values (3/4 inside the wf domain) and on a malformed byte stream.',
 )
